@@ -60,3 +60,12 @@ CLAIMED["C13"] = (
  "registration and Deregister drops the slot only under Events == 0. Does not decide exhaustion at the k-th allocation beyond the enumerated error edges, nor GC behaviour.",
  COMMON_NOTE,
  "DESIGN.md section 5 C13")
+
+CLAIMED["C08"] = (
+ "enum typestate: static transition relation from guard literals (dominator chain) + path enumeration with infeasible-path pruning for the close-reply table and read gate",
+ "Static necessary-condition analysis. Decides that the static transition relation of Stream.state (13 stores with their guard-allowed from-sets) is a subset of the "
+ "RFC 6455 table, that prepareClose is reached only from Active with the state left first (at most one Close frame), that application/pong frames are queued only in "
+ "Active, that a Ping yields exactly one Pong with its payload and a Pong nothing, the close-reply table on every path, flush-before-read, the canRead gate, EOF -> "
+ "Terminated + Close(1006), and FIFO use of the pending queue. Does not decide behaviour over event histories beyond the static relation nor what reaches the peer.",
+ COMMON_NOTE,
+ "DESIGN.md section 5 C08")
